@@ -1,12 +1,17 @@
-use std::cmp::min;
+use std::sync::Arc;
 
-/// Adds poor-man's partial matching support to the standard regex::Regex
-/// Note this is very limited and slightly broken stub for partial matching.
+use regex_automata::hybrid::dfa::DFA;
+use regex_automata::util::syntax;
+use regex_automata::{Anchored, Input};
+
+/// Adds partial matching support to the standard regex::Regex.
 /// False positives for partial matching are allowed.
 #[derive(Clone, Debug)]
 pub struct Regex {
     regex: regex::Regex,
-    fixed_prefix: String,
+    /// The automaton of the same expression. It tells whether the text read so far can still
+    /// be extended to a match. None if it could not be built; then everything matches partially.
+    dfa: Option<Arc<DFA>>,
     case_insensitive: bool,
 }
 
@@ -18,14 +23,18 @@ impl Regex {
             // file names may contain new line characters
             .dot_matches_new_line(true)
             .build()?;
-        let fixed_prefix = if case_insensitive {
-            Self::get_fixed_prefix(re).to_lowercase()
-        } else {
-            Self::get_fixed_prefix(re)
-        };
+        let dfa = DFA::builder()
+            .syntax(
+                syntax::Config::new()
+                    .case_insensitive(case_insensitive)
+                    .dot_matches_new_line(true),
+            )
+            .build(re)
+            .ok()
+            .map(Arc::new);
         Ok(Regex {
             regex,
-            fixed_prefix,
+            dfa,
             case_insensitive,
         })
     }
@@ -41,63 +50,33 @@ impl Regex {
     /// Returns true if given string `s` could match the pattern if extended
     /// by more characters.
     ///
-    /// Technically it checks if the string s matches the initial characters
-    /// in the fixed prefix of the regex, where fixed prefix are all characters up to the
-    /// first regex wildcard.
+    /// Technically it feeds the string `s` to the automaton of the regex and checks
+    /// that the automaton has not got into the state from which no match is possible.
+    /// Whenever that cannot be determined, it returns true.
     pub fn is_partial_match(&self, s: &str) -> bool {
-        let len = min(s.len(), self.fixed_prefix.len());
-        let truncated: String = s.chars().take(len).collect();
-        let pattern = if self.case_insensitive {
-            truncated.to_lowercase()
-        } else {
-            truncated
+        let dfa = match &self.dfa {
+            Some(dfa) => dfa,
+            None => return true,
         };
-        self.fixed_prefix.starts_with(&pattern)
-    }
-
-    /// Returns the initial fragment of the regex string that always matches
-    /// a fixed string. That fragment does not contain any wildcard characters (or all are escaped).
-    fn get_fixed_prefix(s: &str) -> String {
-        let mut escape = false;
-        let mut result = String::new();
-        let magic_chars = ['.', '^', '$', '(', ')', '{', '}', '[', ']', '|', '.', '+'];
-
-        for (i, c) in s.chars().enumerate() {
-            if c == '^' && i == 0 {
-                continue;
+        let mut cache = dfa.create_cache();
+        let input = Input::new(s).anchored(Anchored::Yes);
+        let mut state = match dfa.start_state_forward(&mut cache, &input) {
+            Ok(state) => state,
+            Err(_) => return true,
+        };
+        for &byte in s.as_bytes() {
+            state = match dfa.next_state(&mut cache, state, byte) {
+                Ok(state) => state,
+                Err(_) => return true,
+            };
+            if state.is_dead() {
+                return false;
             }
-            // a repetition like {0,1} may make the previous character optional as well
-            if c == '{' && !escape {
-                result.pop();
-                break;
+            if state.is_quit() {
+                return true;
             }
-            if magic_chars.contains(&c) && !escape {
-                break;
-            }
-            // these may make the previous character optional,
-            // so we erase the last added one
-            if ['?', '*'].contains(&c) && !escape {
-                result = result.chars().take(result.len() - 1).collect();
-                break;
-            }
-            // escaped alphabetic character means a character class,
-            // so let's stop here as well
-            if c.is_ascii_alphabetic() && escape {
-                break;
-            }
-
-            // we\re not adding the escape char to the output, because the output is not a regexp
-            if c == '\\' && !escape {
-                escape = true;
-                continue;
-            }
-
-            result.push(c);
-            // the escape applies only to the single character following the backslash
-            escape = false;
         }
-
-        result
+        true
     }
 }
 
